@@ -394,6 +394,10 @@ def nbytes_poly(sc: SizeCtx, cls: ClassInfo):
     if ca is not None:
         v = prog.const_int(ca[0].module, ca[1], ca[0])
         if v is None:
+            # item sizes of codecs (`VEC2F.btype.itemsize`, `i32.nBytes(2)`) are constants of the polynomial algebra
+            pv = to_poly(ca[1], Ctx(prog, ca[0].module, ca[0]))
+            if pv is not None and pv.is_const():
+                return pv, ca[1], "class constant"
             raise AnalysisError(f"{cls.name}.nBytes class constant is not a constant expression")
         return Poly.const(v), ca[1], "class constant"
     summ = facts.init_summary(prog, cls)
